@@ -2,16 +2,16 @@ SPECIFICATION Spec
 CONSTANTS
   EmitOn = FALSE
   Mode = "mc"
-  IPSets <- IP5x2
-  FnW <- FW2x2
-  FnB <- FB2x1
+  IPSets <- IPq
+  FnW <- FWq
+  FnB <- FBq
   AuthModes <- Au2
   MaxCfgs = 1
   MaxReqs = 0
-  EthLegacyAware = TRUE
+  EthLegacyAware = FALSE
   StreamGated = FALSE
   GLock = TRUE
   Lvl = 1
 VIEW view
-INVARIANTS TypeOK MechSoundJ MechSoundG EthSame EthSound RefNonTrivial RefTable
+INVARIANTS EthSame
 CHECK_DEADLOCK FALSE
